@@ -266,7 +266,9 @@ namespace Givaro {
 
 	PolElement& div (PolElement& r, const PolElement& a, const PolElement& b) const
             {
-		return _pD.modin( _pD.mulin( inv(r, b), a), _irred );
+		PolElement ib;
+		inv(ib, b);
+		return mul(r, a, ib);
             }
 
 	PolElement& axpy (PolElement& r, const PolElement& a, const PolElement& b, const PolElement& c) const
